@@ -182,6 +182,20 @@ class StftMonitor:
             which = "energy" if (g["energy"] and col == 0) else "filter %s" % (None if col is None else col - int(g["energy"]))
             self.v("frame %s %s: %s (N=%d fl=%d fs=%d D=%d %s%s %s)" % (None if i is None else i[0], which, detail, N, fl, fs, D, g["style"],
                    " kaldi" if g["kaldi"] else "", info["bank"]), check="value", coeff=which, **info)
+        if ok and g["energy"] and not f16 and got.shape[0]:
+            # the energy coefficient is a sum of squares of the frame's own samples: no cancellation, so it is accurate relative to
+            # the frame's own level however loud the rest of the recording is
+            e_got, e_want = got[:, 0].astype(np.float64), want[:, 0]
+            if g["use_log"]:
+                e_got, e_want = np.exp(e_got), np.exp(e_want)
+            rt = 1e-5 if f32 else 1e-9
+            floor = config.LOG_FLOOR_VALUE if g["use_log"] else 0.0
+            bad = np.abs(e_got - e_want) > rt * np.maximum(np.abs(e_want), floor) + 1e-290
+            self.rec.count("energy_coefficients_judged_at_their_own_frame_level", int(len(e_want)))
+            if np.any(bad):
+                k = int(np.argmax(bad))
+                self.v("frame %d energy: got %r want %r relative to the frame's own level (N=%d fl=%d fs=%d %s%s)" % (k, float(got[k, 0]), float(want[k, 0]), N, fl, fs,
+                       g["style"], " kaldi" if g["kaldi"] else ""), check="value", coeff="energy", **info)
         if g["args"].get("frame_length_ms") is None:
             self.rec.count("default_frame_length_computers")
             for fi, h in enumerate(H):
@@ -247,6 +261,9 @@ def _run_case(case, rec, mon=None):
         kind = str(rng.choice(gen.SIGNAL_KINDS))
         r_dt = rng.random()
         dt = np.float32 if r_dt < 0.12 else np.float16 if r_dt < 0.18 else np.float64  # the result takes the signal's floating type
+        if case["idx"] % 5 == 1 and j == int(np.argmax(pick)):
+            kind, dt = ("loud_then_quiet", "quiet_then_loud", "click")[(case["idx"] // 5) % 3], np.float64  # 120 dB of dynamic range within one recording
+            rec.count("recordings_with_120dB_dynamic_range")
         x = gen.signal(rng, int(N), kind, dt, views=True)
         x.setflags(write=False)
         try:
